@@ -13,7 +13,7 @@ THEOREMS = ["Genql.C13." + t for t in [
     "no_deadlock_single_lock", "cache_is_parse_graph", "execReader_no_deadlock"]] + \
     ["Genql.Obligations.C13." + t for t in [
         "execReader_well_locked", "cache_only_in_execReader", "execReader_race_free", "parallel_join_well_locked",
-        "parallel_hash_join_well_locked", "vars_well_locked", "registries_init_only", "package_vars_users"]]
+        "parallel_hash_join_well_locked", "vars_well_locked", "registries_init_only", "package_vars_users", "sub_packages_stateless"]]
 TRUSTED = ["the Go memory model and scheduler are not formalised: a theorem cannot exhibit a race; races are only *searched* with "
            "the race detector", "the go/ast fact extractor (lock/unlock/access paths of ExecReader, PARALLEL join workers, GETVAR/SETVAR; "
            "writers of package-level variables)"]
@@ -33,6 +33,15 @@ def workloads(rnd, tier):
         "SELECT * FROM t x PARALLEL JOIN u y ON x.a = y.m",
         "SELECT * FROM t x PARALLEL HASH_JOIN u y ON x.a = y.m",
         "SELECT * FROM t x PARALLEL LEFT JOIN u y ON x.a < y.m",
+        # number-vs-string and string-vs-number comparisons (compare.Compare's text route) from many goroutines
+        "SELECT * FROM t x PARALLEL JOIN u y ON x.k >= y.b",
+        "SELECT * FROM t x PARALLEL JOIN u y ON y.b != x.a",
+        "SELECT k FROM t WHERE a < s OR s > k",
+        # ON conditions that register deferred work / memo entries on the join's query while the PARALLEL tasks run
+        "SELECT * FROM t x PARALLEL JOIN u y ON EXISTS (SELECT * FROM `<-u` WHERE m = 1) AND x.a < y.m",
+        "SELECT * FROM t x PARALLEL LEFT JOIN u y ON x.a IN (SELECT m FROM `<-u`) AND x.a < y.m",
+        "SELECT * FROM t x PARALLEL JOIN u y ON ONCE.VF_ID(1) < y.m AND x.a < y.m",
+        "SELECT * FROM t x PARALLEL JOIN u y ON x.s LIKE 'x%' OR y.b LIKE 'p%' AND x.a < y.m",
         "SELECT s, COUNT(*) AS n, SUM(a) AS tot FROM t GROUP BY s",
         "SELECT k, (SELECT x FROM items) AS sub FROM t",
         "SELECT k, (SELECT v FROM `<-meta`) AS sub FROM t WHERE k < 3",
@@ -41,6 +50,9 @@ def workloads(rnd, tier):
         "WITH c AS (SELECT a, k FROM t WHERE a > 0) SELECT k FROM c WHERE a < 3",
         "SELECT ASYNC.VF_SLOW('q', k) AS v, k FROM t",
         "SELECT SPINASYNC.VF_SLOW('q', k), k FROM t",
+        # a panicking ASYNC call: the recovered error is written by the goroutine and read by the post processor
+        "SELECT ASYNC.VF_PANIC(a = 2) AS v, k FROM t",
+        "SELECT SPINASYNC.VF_PANIC(a = 2), k FROM t",
         "SELECT DISTINCT s FROM t",
         "SELECT a FROM t UNION SELECT m FROM u",
         "SELECT `t[0].s` AS first FROM dual",
